@@ -154,8 +154,9 @@ def gen_tables(tier, rng):
             out.append(f"apply {fc} {tc} 0")
             for k1 in R6:
                 out.append(f"apply {fc} {tc} 1 {k1}")
-                for k2 in R6:
-                    out.append(f"apply {fc} {tc} 2 {k1} {k2}")
+        for k1 in R6:
+            for k2 in R6:
+                out.append(f"apply 0 {tc} 2 {k1} {k2}")
         out.append(f"mft 0 {tc} 0")
         for k1 in R6:
             out.append(f"mft 0 {tc} 1 {k1}")
